@@ -210,6 +210,22 @@ CLAIMED = {
         note=('Known findings F3-C11, F11-C11, F21, F22, F23 are recognised by exact signature/emulation.  An empty selection may be reported as '
               'failure or as a file without rows.  RP66V1 ORIGIN carries the attributes the converter reads.'),
         technique='TLA+ spec + TLC model checking of the converter designs; TLC trace validation of real conversion runs'),
+    'C12': dict(
+        category='model_checking', design='3/C12',
+        text=('TLC model checks the pool and sequential drivers (Batch.tla) over every schedule of <= 3 workers x 4 files for several '
+              'assignments of good / failing / foreign files: one result per file, never aborted, final results and output tree equal to the '
+              'isolated conversions for every behaviour, and (liveness, weak fairness, no state constraint) every batch ends with a result for '
+              'every good file; the variants without the per-file guard, with state carried between conversions of one process, and with '
+              'coinciding output paths are refuted.  Generated directories (valid RP66V1/LIS/BIT files mixed with empty, foreign, truncated, '
+              'bit-damaged files and files their own converter fails on, sub-directories, a carried-state scenario) are converted by the real '
+              'convert_dir_or_file_to_las and convert_dir_or_file_to_las_multiprocessing (jobs 1..16) with a traced picklable conversion function '
+              '(per-process event files); each run is one trace (start / take / finish / end) validated by TLC against BatchTrace.tla, whose '
+              'constants are the isolated conversions of every file (done twice, must agree): results and output tree (digests without the '
+              'creation-time line) must equal the isolated ones.  Fault enumeration: a valid file per format truncated / bit-flipped / overwritten '
+              'at enumerated positions plus empty and foreign files, converted under a watchdog: always a result, never an escaping exception.'),
+        note=('Known finding F25 (same-stem RP66V1 inputs write the same LAS paths) is judged in its own scenario and recognised only when every '
+              'difference is confined to the colliding files.  Benign damage may still convert.'),
+        technique='TLA+ spec + TLC model checking of all schedules (safety + liveness); TLC trace validation of real pool/sequential runs; fault enumeration'),
 }
 
 NOT_YET = 'check not built yet in this session; planned per DESIGN.md section 3'
